@@ -204,7 +204,9 @@ class Impl:
             else:
                 old.stop()
         cfg = self.cfg
+        clock, fwn = self.clock, self._fwn
         self.__init__(cfg, self.scratch)
+        self.clock, self._fwn = clock, fwn    # the harness clock is not part of the gateway
         if self.gw.tasks.persistence:
             if self.is_async:
                 # start_persistence of the asyncio flavour creates a forever task: load + one save inline
